@@ -256,7 +256,7 @@ func (fr *Frame) stdlibCall2(in *ssa.Call, callee *ssa.Function, name string, ar
 		}
 		return &GVal{T: e, Typ: in.Type()}
 	case "encoding/json.Marshal", "encoding/json.MarshalIndent":
-		use("json.Marshal(v): never panics; succeeds on JSON data (specJSONVal) with text t such that jsonDecode(t) == v; its error is not a SyntaxError of this package")
+		use("json.Marshal(v): never panics; succeeds on JSON data (specJSONVal) with text t such that jsonDecode(t) is deeply equal to v; its error is not a SyntaxError of this package")
 		v := fr.term(args[0])
 		bs := w.sliceSort(SBV8)
 		goFn("jsonEncode", []*Sort{SVal}, bs.S)
@@ -268,8 +268,14 @@ func (fr *Frame) stdlibCall2(in *ssa.Call, callee *ssa.Function, name string, ar
 		if _, ok := p.specs["specJSONVal"]; ok {
 			ex.addFact(Implies(App("specJSONVal", SBool, v), okc))
 		}
-		ex.addFact(Implies(okc, And(Eq(App("jsonDecode", SVal, enc), v), App("jsonOK", SBool, enc), Not(w.SlNil(enc)), Le(IntLit(0), w.SlLen(enc)), Le(w.SlLen(enc), maxLen))))
-		e := Ite(okc, mk("ErrNil", SErr), App("ErrOther", SErr, p.FreshConst("errid", SInt)))
+		back := Eq(App("jsonDecode", SVal, enc), v)
+		if _, ok := p.specs["specDeepEq"]; ok {
+			// decoding the text gives a value deeply equal to v (not the same slices and maps)
+			back = App("specDeepEq", SBool, App("jsonDecode", SVal, enc), v)
+		}
+		ex.addFact(Implies(okc, And(back, App("jsonOK", SBool, enc), Not(w.SlNil(enc)), Le(IntLit(0), w.SlLen(enc)), Le(w.SlLen(enc), maxLen))))
+		goFn("jsonMarshalErr", []*Sort{SVal}, SInt)
+		e := Ite(okc, mk("ErrNil", SErr), App("ErrOther", SErr, App("jsonMarshalErr", SInt, v)))
 		res := Ite(okc, enc, ex.zero(types.NewSlice(types.Typ[types.Uint8])))
 		return &GVal{Tuple: []*GVal{{T: res, Typ: types.NewSlice(types.Typ[types.Uint8])}, {T: e, Typ: errType()}}, Typ: in.Type()}
 	case "strconv.ParseFloat":
@@ -278,7 +284,8 @@ func (fr *Frame) stdlibCall2(in *ssa.Call, callee *ssa.Function, name string, ar
 		goFn("parseFloatVal", []*Sort{SStr}, SF64)
 		goFn("parseFloatOK", []*Sort{SStr}, SBool)
 		okc := App("parseFloatOK", SBool, sT)
-		e := Ite(okc, mk("ErrNil", SErr), App("ErrOther", SErr, p.FreshConst("errid", SInt)))
+		goFn("parseFloatErr", []*Sort{SStr}, SInt)
+		e := Ite(okc, mk("ErrNil", SErr), App("ErrOther", SErr, App("parseFloatErr", SInt, sT)))
 		return &GVal{Tuple: []*GVal{{T: App("parseFloatVal", SF64, sT), Typ: types.Typ[types.Float64]}, {T: e, Typ: errType()}}, Typ: in.Type()}
 	case "sort.Stable":
 		return fr.sortStable(in, args)
@@ -388,6 +395,9 @@ func (fr *Frame) sortStable(in *ssa.Call, args []*GVal) *GVal {
 		if ex.st.frozen[x.Reg] {
 			ex.unsupp("sort.Stable on a slice that already escaped")
 		}
+		// remember the call for \perm(j) in contracts: the input array, its length, the index function
+		ex.st.ghost["sortArr:"+sortIdent(es)] = ex.st.cells[x.Reg]
+		ex.st.ghost["sortLen"] = x.Len
 		ex.st.cells[x.Reg] = App(fn, as, ex.st.cells[x.Reg], x.Len)
 		return &GVal{Typ: in.Type()}
 	}
@@ -446,6 +456,19 @@ func (fr *Frame) sortStable(in *ssa.Call, args []*GVal) *GVal {
 		p.DeclareFun(fn, []*Sort{as, SInt}, as)
 		p.permAxioms[sortIdent(si.Elem)] = si.Elem
 		ex.st.heap[ik] = Store(h, ref, w.MkSlice(si.Elem, App(fn, as, w.SlArr(old), w.SlLen(old)), w.SlLen(old), w.SlNil(old)))
+		// the field aliases the local slice it was initialised from: that storage is permuted, too
+		if lv := c.fieldReg["items"]; lv != nil {
+			if lv.Off == nil || lv.Off.Head != "0" {
+				ex.unsupp("sort.Stable on an adapter whose items alias the middle of a local slice")
+			} else if _, live := ex.st.cells[lv.Reg]; live {
+				ex.st.cells[lv.Reg] = App(fn, as, w.SlArr(old), w.SlLen(old))
+			}
+		}
+		ex.st.ghost["sortArr:"+sortIdent(si.Elem)] = w.SlArr(old)
+		ex.st.ghost["sortLen"] = w.SlLen(old)
+		// order: when Less has a clause  [order] G ==> (result <==> E)  the data ends up ascending and
+		// stable with respect to E (evaluated on the final arrangement), provided G holds at the end
+		fr.sortOrderFacts(tn, ref, App(pf, SInt, w.SlArr(old), w.SlLen(old), IntLit(0)), w.SlArr(old), w.SlLen(old), pf)
 		return &GVal{Typ: in.Type()}
 	}
 	ex.unsupp("sort.Stable on an unsupported value")
@@ -457,4 +480,52 @@ func boolOr(t *Term) *Term {
 		return TFalse
 	}
 	return t
+}
+
+// sortOrderFacts adds what sort.Stable guarantees about the final arrangement in terms of the
+// adapter's Less contract (clause labelled "order").
+func (fr *Frame) sortOrderFacts(tn string, ref *Term, _ *Term, oldArr, n *Term, pf string) {
+	ex := fr.ex
+	p := ex.p
+	cn := "(*" + tn + ").Less"
+	mc := p.cs.Funcs[cn]
+	mf := p.funcs[cn]
+	if mc == nil || mf == nil || len(mf.Params) != 3 {
+		return
+	}
+	var ord *Clause
+	for _, cl := range mc.Ensures {
+		if cl.Label == "order" && cl.Kind == "ensures" {
+			ord = cl
+		}
+	}
+	if ord == nil {
+		return
+	}
+	e := ord.Expr
+	if e.Op != "bin" || e.Name != "==>" || e.Args[1].Op != "bin" || e.Args[1].Name != "<==>" || e.Args[1].Args[0].Op != "id" || e.Args[1].Args[0].Name != "result" {
+		ex.unsupp("contract: the [order] clause of %s must have the form  G ==> (result <==> E)", cn)
+		return
+	}
+	guard, rel := e.Args[0], e.Args[1].Args[1]
+	I := mkBoundVar("I!o", SInt)
+	J := mkBoundVar("J!o", SInt)
+	evalAt := func(x *CExpr, i, j *Term) *Term {
+		vars := map[string]*GVal{
+			mf.Params[0].Name(): {T: ref, Typ: mf.Params[0].Type()},
+			mf.Params[1].Name(): {T: i, Typ: types.Typ[types.Int]},
+			mf.Params[2].Name(): {T: j, Typ: types.Typ[types.Int]},
+		}
+		env := &Env{fr: fr, vars: vars, st: ex.st, old: ex.st, oldVars: vars}
+		return fr.evalBool(x, env)
+	}
+	g := evalAt(guard, I, J)
+	inRange := And(Le(IntLit(0), I), Lt(I, J), Lt(J, n))
+	permI := App(pf, SInt, oldArr, n, I)
+	permJ := App(pf, SInt, oldArr, n, J)
+	// ascending: no later element is less than an earlier one
+	ex.addFact(mkQuant("forall", []*Term{I, J}, Implies(And(inRange, g), Not(evalAt(rel, J, I)))))
+	// stable: elements that changed their relative order are strictly ordered
+	ex.addFact(mkQuant("forall", []*Term{I, J}, Implies(And(inRange, g, Gt(permI, permJ)), evalAt(rel, I, J))))
+	p.assumptions["stdlib: sort.Stable leaves the data ascending and stable with respect to Less, provided every call of Less answered as its [order] contract clause says"] = true
 }
